@@ -68,6 +68,10 @@ Definition req_pos (code : Z) (arg : sx) : sx :=
   | 1311, SL [w; h; l] =>
       match sx_opt sx_q w, sx_opt sx_q h, sx_layout l with
       | Some w, Some h, Some l => of_bool (needs_missing w h l) | _, _, _ => bad end
+  | 1313, SL [c; s] =>
+      match sx_cfg c, sx_nset s with Some c, Some s => of_result of_nset (dfxp_transform_inline c s) | _, _ => bad end
+  | 1315, SL [a; SS printed] =>
+      match sx_size a with Some a => of_bool (ok_print_tol_stmt (s_val a) (s_unit a) printed) | None => bad end
   | 1312, SL [c; s] =>
       match sx_cfg c, sx_nset s with Some c, Some s => of_result of_nset (dfxp_transform_prefix c s) | _, _ => bad end
   | _, _ => bad
@@ -76,25 +80,9 @@ Definition req_pos (code : Z) (arg : sx) : sx :=
 (* ---- C12 requests (1200..) ------------------------------------------------------------------------------- *)
 Definition req_c12 (code : Z) (arg : sx) : sx :=
   match code, arg with
-  (* expected effective layout after DFXP write+read for (lang, caption, node) layouts already transformed *)
-  | 1200, SL [l; c; n] =>
-      match sx_opt sx_layout l, sx_opt sx_layout c, sx_opt sx_layout n with
-      | Some l, Some c, Some n => of_layout (expected_effective l c n) | _, _, _ => bad end
   | 1201, SL [l; c; n; o] =>
       match sx_opt sx_layout l, sx_opt sx_layout c, sx_opt sx_layout n, sx_opt sx_layout o with
       | Some l, Some c, Some n, Some o => of_bool (ok_effective l c n o) | _, _, _, _ => bad end
-  (* model: choice + attributes + reader = what the model says comes back *)
-  | 1202, SL [g; l; c; n] =>
-      match sx_opt sx_layout g, sx_opt sx_layout l, sx_opt sx_layout c, sx_opt sx_layout n with
-      | Some g, Some l, Some c, Some n =>
-          match dfxp_choice g l c n with
-          | Some e => if layout_truthy e && has_region e then of_result of_layout (read_region (layout_attrs e))
-                      else of_result of_layout (read_region (layout_attrs dfxp_default_region))
-          | None => of_result of_layout (read_region (layout_attrs dfxp_default_region))
-          end
-      | _, _, _, _ => bad end
-  | 1203, ns => match sx_listof sx_node ns with
-                | Some ns => of_list (of_opt of_layout) (vtt_groups ns) | None => bad end
   | _, _ => bad
   end.
 
@@ -121,15 +109,17 @@ Definition of_rlang (l : rlang) : sx := SL [of_layout (rl_layout l); of_list of_
 
 Definition req_tree (code : Z) (arg : sx) : sx :=
   match code with
-  | 1210 => match sx_listof sx_dlang arg with
-            | Some s => of_result (of_list of_rlang) (dfxp_roundtrip s) | None => bad end
+  | 1210 => match arg with
+            | SL [g; s] => match sx_opt sx_layout g, sx_listof sx_dlang s with
+                           | Some g, Some s => of_result (of_list of_rlang) (dfxp_roundtrip g s) | _, _ => bad end
+            | _ => bad end
   | _ => bad
   end.
 
 Definition dispatch (code : Z) (arg : sx) : option sx :=
   match code with
-  | 1305 | 1306 | 1307 | 1308 | 1309 | 1310 | 1311 | 1312 => Some (req_pos code arg)
-  | 1200 | 1201 | 1202 | 1203 => Some (req_c12 code arg)
+  | 1305 | 1306 | 1307 | 1308 | 1309 | 1310 | 1311 | 1312 | 1313 | 1315 => Some (req_pos code arg)
+  | 1201 => Some (req_c12 code arg)
   | 1210 => Some (req_tree code arg)
   | _ => None
   end.
